@@ -102,6 +102,12 @@ pub(crate) mod backend;
 // Generic code for window lookups
 pub(crate) mod window;
 
+// Verification hooks: thin `pub` wrappers over crate internals, compiled only
+// with `--cfg curve25519_dalek_verif`.
+#[cfg(curve25519_dalek_verif)]
+#[allow(missing_docs, dead_code, non_snake_case, unused_imports, unused_qualifications)]
+pub mod verif_hooks;
+
 pub use crate::{
     edwards::EdwardsPoint, montgomery::MontgomeryPoint, ristretto::RistrettoPoint, scalar::Scalar,
 };
